@@ -1,8 +1,8 @@
 SPECIFICATION TraceSpec
 CONSTANTS
-  Cfgs <- TraceCfgs
+  Cfgs = {}
   T <- BigT
-  GradClasses = {"ok", "zero", "nan", "inf", "huge", "tiny"}
+  GradClasses = {"ok", "zero", "nan", "inf", "huge", "tiny", "big", "small"}
   ErrClasses = {"below", "atabove", "nan", "inf"}
 INVARIANT EmitVerdict
 INVARIANT EmitStall
